@@ -364,8 +364,16 @@ class ScipyOptimizeDriver(Driver):
                     
                     if linear:
                         # LinearConstraint
-                        con = LinearConstraint(A=lincongrad[self._con_idx[name]],
-                                               lb=lb, ub=ub, keep_feasible=True)
+                        # The constraint is affine in the design variables, A x + offset; scipy's
+                        # LinearConstraint bounds A x alone.
+                        i0 = self._con_idx[name]
+                        A = lincongrad[i0:i0 + size]
+                        offset = self._con_cache[name] - A.dot(x_init)
+                        con = LinearConstraint(A=A,
+                                               lb=np.where(lb > -INF_BOUND, lb - offset, -np.inf),
+                                               ub=np.where(ub < INF_BOUND, ub - offset, np.inf),
+                                               keep_feasible=True)
+                        constraints.append(con)
                     else:
                         # NonlinearConstraint
                         # Loop over every index separately,
@@ -374,8 +382,8 @@ class ScipyOptimizeDriver(Driver):
                             # TODO add option for Hessian
                             # Double-sided constraints are accepted by the algorithm
                             args = [name, False, j]
-                            lb_j = np.maximum(lb[j], -INF_BOUND)
-                            ub_j = np.minimum(ub[j], INF_BOUND)
+                            lb_j = lb[j] if lb[j] > -INF_BOUND else -np.inf
+                            ub_j = ub[j] if ub[j] < INF_BOUND else np.inf
                             con = NonlinearConstraint(
                                 fun=signature_extender(
                                     WeakMethodWrapper(self, '_con_val_func'), args),
@@ -383,7 +391,7 @@ class ScipyOptimizeDriver(Driver):
                                 jac=signature_extender(
                                     WeakMethodWrapper(self, '_congradfunc'), args)
                             )
-                    constraints.append(con)
+                            constraints.append(con)
                 else:
                     # Type of constraints is list of dict
 
@@ -757,8 +765,10 @@ class ScipyOptimizeDriver(Driver):
 
         grad_idx = self._con_idx[name] + idx
 
-        # Equality constraints
-        if meta['equals'] is not None:
+        # Equality constraints, and "new-style" constraints, whose function is the constraint
+        # value itself (_con_val_func)
+        if meta['equals'] is not None or \
+                (self.options['optimizer'] in _supports_new_style and _use_new_style):
             return grad[grad_idx, :]
 
         # Note, scipy defines constraints to be satisfied when positive,
